@@ -634,7 +634,11 @@ func (s *session) rebalance(op hOp) {
 	// C12: a transient stream end of a vBucket of the NEW session arriving while the rebalance is still completing (its
 	// own request already answered, AfterStreamStart running): the vBucket has not ended for good
 	endedInRebalance := -1
-	if s.oracles["C12"] && op.Snap%3 == 0 && !(s.scrapeClosed != nil && op.AtL) {
+	endProp := "C12"
+	if s.oracles["C11"] {
+		endProp = "C11"
+	}
+	if (s.oracles["C12"] || s.oracles["C11"]) && op.Snap%3 == 0 && !(s.scrapeClosed != nil && op.AtL) {
 		vb := s.lo + ((op.Vb%(s.hi-s.lo+1))+(s.hi-s.lo+1))%(s.hi-s.lo+1)
 		n0 := len(s.cl.openLog())
 		s.hand.hook("ASStart", func() {
@@ -644,7 +648,7 @@ func (s *session) rebalance(op hOp) {
 			}
 			if o := s.cl.observer(uint16(vb)); o != nil && opened {
 				endedInRebalance = vb
-				o.End(models.DcpStreamEnd{VbID: uint16(vb)}, gocbcore.ErrDCPStreamStateChanged)
+				s.cl.serverEnd(uint16(vb), []error{gocbcore.ErrDCPStreamStateChanged, gocbcore.ErrSocketClosed, gocbcore.ErrDCPStreamTooSlow}[((op.N%3)+3)%3])
 			}
 		})
 	}
@@ -697,11 +701,18 @@ func (s *session) rebalance(op hOp) {
 				break
 			}
 			if time.Now().After(deadline) {
-				s.fail("C12", "vb %d: its stream ended with a transient cause while the rebalance was completing (after its own request had been answered) and was not requested again", endedInRebalance)
+				s.fail(endProp, "vb %d: its stream ended with a transient cause while the rebalance was completing (after its own request had been answered) and was not requested again: the member does not stream its whole range (%d-%d) after the rebalance, it streams %s", endedInRebalance, s.lo, s.hi, s.cl.liveRange())
 				return
 			}
 			time.Sleep(200 * time.Microsecond)
 		}
+	}
+	if s.oracles["C11"] {
+		// reopened on the vBucket range of the most recent membership information - all of it
+		if got, want := s.cl.liveRange(), fmt.Sprintf("%d-%d", s.lo, s.hi); got != want {
+			s.fail("C11", "after the rebalance the member streams vBuckets %s, the range of the most recent membership information is %s", got, want)
+		}
+		s.label("range_streamed_after_rebalance")
 	}
 	s.trackSeen = len(s.cons.trackLog())
 	s.trackBase = s.trackSeen
